@@ -102,7 +102,7 @@ PROPS = {
             "technique": "Lean 4 proof: with a per-asset row dictionary every shown transaction links to the row it was written at, hidden ones carry no link; correspondence of link targets",
             "text": "Theorem links_lead_to_own_row; hyperlink targets of the real rp2_full_report.ods parsed and compared with the model; oracle follows each link in the real file.",
             "design_ref": "DESIGN.md §3 C19"},
-    "C20": {"streams": [S("reports", 60, 3000, ["jp", "status"])], "rule": REP_RULE + "; C20: sparse years, years first met in OUT/INTRA tables",
+    "C20": {"streams": [S("reports", 60, 3000, ["jp", "status"]), S("cli", 24, 800, ["jp", "exit", "files"])], "rule": REP_RULE + "; C20: sparse years, years first met in OUT/INTRA tables; cli stream for C20: rp2_jp end to end in the languages it ships (default ja, en, and the test locale kl read back with its string prefix removed)",
             "assumptions": ["hypothesis FeeFiatVisible (finding F13): every fee-bearing transfer has a yen fee value that does not vanish at 13 decimals"],
             "technique": "Lean 4 proof on the JP report model: sheets = years with transactions, ascending, each once; opening balance chained to the previous existing year sheet; correspondence of sheets/rows/references",
             "text": "Theorem sheets_and_chain (jpAsset_spec) for every input; tax_report_jp.ods sheet names, rows and cross-sheet references compared with the Lean model; chain oracle on the real file.",
